@@ -117,9 +117,11 @@ func (r *Rec) around(kind string, args []cq.V, real func() error) error {
 // wrappers
 // ---------------------------------------------------------------------------------------------
 
+// The wrappers embed what they wrap, so that a method the repository adds to one of its expected-keeper
+// interfaces is passed through and the harness keeps building.
 type recBank struct {
-	real bankkeeper.Keeper
-	rec  **Rec
+	bankkeeper.Keeper
+	rec **Rec
 }
 
 func coinsV(c sdk.Coins) cq.V {
@@ -131,7 +133,7 @@ func coinsV(c sdk.Coins) cq.V {
 }
 
 func (b recBank) GetBalance(ctx context.Context, addr sdk.AccAddress, denom string) sdk.Coin {
-	c := b.real.GetBalance(ctx, addr, denom)
+	c := b.Keeper.GetBalance(ctx, addr, denom)
 	if r := *b.rec; r != nil && r.Lie != 0 && addr.Equals(core.ModuleAddress) {
 		c.Amount = c.Amount.AddRaw(r.Lie)
 	}
@@ -140,13 +142,13 @@ func (b recBank) GetBalance(ctx context.Context, addr sdk.AccAddress, denom stri
 
 func (b recBank) SendCoinsFromModuleToModule(ctx context.Context, from, to string, amt sdk.Coins) error {
 	return (*b.rec).around("sweep", []cq.V{cq.VS(from), cq.VS(to), coinsV(amt)}, func() error {
-		return b.real.SendCoinsFromModuleToModule(ctx, from, to, amt)
+		return b.Keeper.SendCoinsFromModuleToModule(ctx, from, to, amt)
 	})
 }
 
 func (b recBank) SendCoins(ctx context.Context, from, to sdk.AccAddress, amt sdk.Coins) error {
 	return (*b.rec).around("feesend", []cq.V{cq.VS(Hex(from)), cq.VS(Hex(to)), coinsV(amt)}, func() error {
-		return b.real.SendCoins(ctx, from, to, amt)
+		return b.Keeper.SendCoins(ctx, from, to, amt)
 	})
 }
 
@@ -183,8 +185,8 @@ func (m recEventManager) EmitNonConsensus(ctx context.Context, ev protoiface.Mes
 }
 
 type recCCTP struct {
-	real cctptypes.MsgServer
-	rec  **Rec
+	cctptypes.MsgServer
+	rec **Rec
 }
 
 func optBytes(b []byte) cq.V {
@@ -198,7 +200,7 @@ func (c recCCTP) DepositForBurn(ctx context.Context, m *cctptypes.MsgDepositForB
 	err = (*c.rec).around("cctp", []cq.V{cq.VS(m.From), cq.VBig(m.Amount.BigInt()), cq.VU(uint64(m.DestinationDomain)),
 		cq.VS(string(m.MintRecipient)), cq.VS(m.BurnToken), cq.VNone()}, func() error {
 		var e error
-		resp, e = c.real.DepositForBurn(ctx, m)
+		resp, e = c.MsgServer.DepositForBurn(ctx, m)
 		return e
 	})
 	return
@@ -208,7 +210,7 @@ func (c recCCTP) DepositForBurnWithCaller(ctx context.Context, m *cctptypes.MsgD
 	err = (*c.rec).around("cctp", []cq.V{cq.VS(m.From), cq.VBig(m.Amount.BigInt()), cq.VU(uint64(m.DestinationDomain)),
 		cq.VS(string(m.MintRecipient)), cq.VS(m.BurnToken), cq.VSome(cq.VS(string(m.DestinationCaller)))}, func() error {
 		var e error
-		resp, e = c.real.DepositForBurnWithCaller(ctx, m)
+		resp, e = c.MsgServer.DepositForBurnWithCaller(ctx, m)
 		return e
 	})
 	return
@@ -218,22 +220,22 @@ func (c recCCTP) ReplaceDepositForBurn(ctx context.Context, m *cctptypes.MsgRepl
 	err = (*c.rec).around("cctpreplace", []cq.V{cq.VS(m.From), cq.VS(string(m.OriginalMessage)), cq.VS(string(m.OriginalAttestation)),
 		cq.VS(string(m.NewDestinationCaller)), cq.VS(string(m.NewMintRecipient))}, func() error {
 		var e error
-		resp, e = c.real.ReplaceDepositForBurn(ctx, m)
+		resp, e = c.MsgServer.ReplaceDepositForBurn(ctx, m)
 		return e
 	})
 	return
 }
 
 type recHyp struct {
-	msg   warptypes.MsgServer
-	query warptypes.QueryServer
-	rec   **Rec
+	warptypes.MsgServer
+	warptypes.QueryServer
+	rec **Rec
 }
 
 func (h recHyp) Token(ctx context.Context, q *warptypes.QueryTokenRequest) (resp *warptypes.QueryTokenResponse, err error) {
 	err = (*h.rec).around("hyptoken", []cq.V{cq.VS(q.Id)}, func() error {
 		var e error
-		resp, e = h.query.Token(ctx, q)
+		resp, e = h.QueryServer.Token(ctx, q)
 		return e
 	})
 	return
@@ -256,21 +258,21 @@ func (h recHyp) RemoteTransfer(ctx context.Context, m *warptypes.MsgRemoteTransf
 		cq.VS(string(m.Recipient.Bytes())), cq.VBig(m.Amount.BigInt()), hook, gas, cq.VS(m.MaxFee.Denom), feeAmt,
 		cq.VS(m.CustomHookMetadata)}, func() error {
 		var e error
-		resp, e = h.msg.RemoteTransfer(ctx, m)
+		resp, e = h.MsgServer.RemoteTransfer(ctx, m)
 		return e
 	})
 	return
 }
 
 type recInternal struct {
-	real banktypes.MsgServer
-	rec  **Rec
+	banktypes.MsgServer
+	rec **Rec
 }
 
 func (i recInternal) Send(ctx context.Context, m *banktypes.MsgSend) (resp *banktypes.MsgSendResponse, err error) {
 	err = (*i.rec).around("banksend", []cq.V{cq.VS(m.FromAddress), cq.VS(m.ToAddress), coinsV(m.Amount)}, func() error {
 		var e error
-		resp, e = i.real.Send(ctx, m)
+		resp, e = i.MsgServer.Send(ctx, m)
 		return e
 	})
 	return
@@ -342,7 +344,7 @@ func NewInst(s *sim.Sim, extra ...ExtraAction) (*Inst, error) {
 	if !ok || key == nil {
 		return nil, errors.New("orbiter store key not found")
 	}
-	bank := recBank{real: app.BankKeeper, rec: &in.rec}
+	bank := recBank{Keeper: app.BankKeeper, rec: &in.rec}
 	events := recEvents{real: runtime.EventService{}, rec: &in.rec}
 	k := keeper.NewKeeper(app.OrbiterKeeper.Codec(), addresscodec.NewBech32Codec("noble"), log.NewNopLogger(), events,
 		runtime.NewKVStoreService(key), app.OrbiterKeeper.Authority(), bank)
@@ -359,17 +361,17 @@ func NewInst(s *sim.Sim, extra ...ExtraAction) (*Inst, error) {
 		return nil, err
 	}
 	cctp, err := forwardingctrl.NewCCTPController(k.Forwarder().Logger(),
-		recCCTP{real: cctpkeeper.NewMsgServerImpl(app.CCTPKeeper), rec: &in.rec})
+		recCCTP{MsgServer: cctpkeeper.NewMsgServerImpl(app.CCTPKeeper), rec: &in.rec})
 	if err != nil {
 		return nil, err
 	}
 	hyp, err := forwardingctrl.NewHyperlaneController(k.Forwarder().Logger(),
-		recHyp{msg: warpkeeper.NewMsgServerImpl(app.WarpKeeper), query: warpkeeper.NewQueryServerImpl(app.WarpKeeper), rec: &in.rec})
+		recHyp{MsgServer: warpkeeper.NewMsgServerImpl(app.WarpKeeper), QueryServer: warpkeeper.NewQueryServerImpl(app.WarpKeeper), rec: &in.rec})
 	if err != nil {
 		return nil, err
 	}
 	internal, err := forwardingctrl.NewInternalController(k.Forwarder().Logger(),
-		recInternal{real: bankkeeper.NewMsgServerImpl(app.BankKeeper), rec: &in.rec})
+		recInternal{MsgServer: bankkeeper.NewMsgServerImpl(app.BankKeeper), rec: &in.rec})
 	if err != nil {
 		return nil, err
 	}
